@@ -58,6 +58,9 @@ func main() {
 		os.Exit(3)
 	}
 	c := mon.New(id, tier, seed)
+	if lv, ok := props.Levels[id]; ok {
+		c.Level = lv
+	}
 	if replay != "" {
 		rp, err := mon.LoadReplay(replay)
 		if err != nil {
